@@ -70,6 +70,10 @@ def menu_for(kind, tier, full_values=True):
         m.append(("t0", f"t0={t0}", lambda s, t0=t0: s["pps"][0].__setitem__("t0", t0)))
     m.append(("n", "n=1", lambda s: s["pps"][0].__setitem__("states", s["pps"][0]["states"][:1])))
     m.append(("n", "n=3", lambda s: s["pps"][0]["states"].append(solspec.default_vec(s["pps"][0]["kind"], 0.5))))
+    # state lists that are not sorted by time step (the first state stays first, as the Trajectory constructor requires)
+    m.append(("n", "n=3,listed-0-2-1", lambda s: (s["pps"][0]["states"].append(solspec.default_vec(s["pps"][0]["kind"], 0.5)), s["pps"][0].__setitem__("order", [0, 2, 1]))[0]))
+    m.append(("n", "n=4,listed-0-3-1-2", lambda s: (s["pps"][0]["states"].append(solspec.default_vec(s["pps"][0]["kind"], 0.5)),
+                                                   s["pps"][0]["states"].append(solspec.default_vec(s["pps"][0]["kind"], 0.75)), s["pps"][0].__setitem__("order", [0, 3, 1, 2]))[0]))
     m.append(("posdtype", "position-int-array", lambda s: (s["pps"][0].__setitem__("pos_dtype", "int"), [
         st.__setitem__(j, ["i", 2 + j]) for st in s["pps"][0]["states"] for j, (f, i) in enumerate(solspec.fields(s["pps"][0]["kind"])) if f == "position"])[0]
         if any(f == "position" for f, _ in solspec.fields(s["pps"][0]["kind"])) else False))
